@@ -53,6 +53,8 @@ func buildIndexed(n Node, addr []int, reg *registry) any {
 			return AStack(s)
 		case "walias":
 			return WStack(s)
+		case "xalias":
+			return XStack(s)
 		case "ptr":
 			a := AStack(s)
 			return &a
@@ -74,6 +76,8 @@ func buildIndexed(n Node, addr []int, reg *registry) any {
 			return ACond(c)
 		case "walias":
 			return WCond(c)
+		case "xalias":
+			return XCond(c)
 		case "ptr":
 			a := ACond(c)
 			return &a
@@ -930,5 +934,83 @@ func (g *treeGen) mutate(n map[string]any) {
 		default:
 			n["e"] = append(e, Node{"t": "leaf", "ty": "str", "v": []any{"z"}})
 		}
+	}
+}
+
+
+// ---- ConvertStack / ConvertCondition -------------------------------------------------
+
+func init() {
+	evaluators["convert"] = func(in Node, arg any) any {
+		of, cls := nStr(in, "of"), nStr(in, "c")
+		var v any
+		var under string // Addr() of the underlying native instance
+		s := stackage.And().Push("u")
+		c := stackage.Cond("k", stackage.Eq, "v")
+		if of == "stack" {
+			under = s.Addr()
+		} else {
+			under = c.Addr()
+		}
+		pick := func(sv, cv any) any {
+			if of == "stack" {
+				return sv
+			}
+			return cv
+		}
+		as, ac := AStack(s), ACond(c)
+		pas, pac := &as, &ac
+		var zas AStack
+		var zac ACond
+		var nas *AStack
+		var nac *ACond
+		one := 1
+		switch cls {
+		case "native":
+			v = pick(s, c)
+		case "alias":
+			v = pick(as, ac)
+		case "walias":
+			v = pick(WStack(s), WCond(c))
+		case "xalias":
+			v = pick(XStack(s), XCond(c))
+		case "ptr":
+			v = pick(pas, pac)
+		case "ptrptr":
+			v = pick(&pas, &pac)
+		case "zero-native":
+			v = pick(stackage.Stack{}, stackage.Condition{})
+		case "zero-alias":
+			v = pick(zas, zac)
+		case "ptr-zero-alias":
+			v = pick(&zas, &zac)
+		case "nil-ptr-alias":
+			v = pick(nas, nac)
+		case "nil":
+			v = nil
+		case "int":
+			v = 7
+		case "string":
+			v = "s"
+		case "struct":
+			v = struct{ X int }{1}
+		case "slice":
+			v = []any{s, c}
+		case "ptr-int":
+			v = &one
+		case "func":
+			v = func() {}
+		}
+		out := map[string]any{"ok": "false", "same": "false", "zero": "true"}
+		if arg == "stack" {
+			r, ok := stackage.ConvertStack(v)
+			out["ok"], out["zero"] = b2s(ok), b2s(r.IsZero())
+			out["same"] = b2s(!r.IsZero() && r.Addr() == under)
+		} else {
+			r, ok := stackage.ConvertCondition(v)
+			out["ok"], out["zero"] = b2s(ok), b2s(r.IsZero())
+			out["same"] = b2s(!r.IsZero() && r.Addr() == under)
+		}
+		return out
 	}
 }
